@@ -13,6 +13,16 @@ func init() {
 
 // C08: GSUB/GPOS/GDEF binary encoding round-trips with consistent offsets and sizes.
 func propC08(w *World, r *Report) {
+	defer func() {
+		var fs []*ssa.Function
+		for _, f := range w.LibFuncs() {
+			p := fnPkgPath(f)
+			if strings.HasSuffix(p, "/gtab") || strings.HasSuffix(p, "/gdef") || strings.HasSuffix(p, "/coverage") || strings.HasSuffix(p, "/classdef") || strings.HasSuffix(p, "/markarray") || strings.HasSuffix(p, "/anchor") {
+				fs = append(fs, f)
+			}
+		}
+		RunDeadAccumulator(w, r, fs)
+	}()
 	e := NewEffects(w)
 	runDet(w, r, e, "C08")
 	RunSizeAgree(w, r, func(p string) bool { return strings.Contains(p, "/opentype/") })
@@ -75,6 +85,7 @@ func propC08(w *World, r *Report) {
 
 // C11: TrueType glyph data round-trips.
 func propC11(w *World, r *Report) {
+	defer runDeadAccIn(w, r, "/glyf")
 	RunSizeAgree(w, r, func(p string) bool { return strings.HasSuffix(p, "/glyf") })
 	RunLocaPair(w, r)
 	r.Rule("readonly: Components, FixComponents, encodeLen, append and Glyphs.Encode do not write memory reachable from the glyph(s) they are called on (component lists are reported and rewritten without touching the source glyph; effect analysis E6)")
@@ -82,6 +93,7 @@ func propC11(w *World, r *Report) {
 	r.Floor("sizeagree", 1)
 	RunGlyfFlagSiblings(w, r)
 	RunXYTwins(w, r)
+	RunComponentSize(w, r)
 	RunBigEndian(w, r, func(p string) bool { return strings.HasSuffix(p, "/glyf") })
 	RunPadStrip(w, r)
 	for _, a := range boundsAssumptions {
